@@ -74,6 +74,12 @@ func run(c *vrt.Ctx) {
 		n := c.Pick(10000, 200000)
 		vrt.Parallel(n, func(i int) { h.runCase(randomCase(c.RNG("rand", i), "rand")) })
 
+		// the same method value used for several runs in a row
+		gh := gridHistories(c.Thorough())
+		vrt.Parallel(len(gh), func(i int) { h.runHistory(gh[i]) })
+		n = c.Pick(2500, 40000)
+		vrt.Parallel(n, func(i int) { h.runHistory(randomHistory(c.RNG("hist", i))) })
+
 		// strictly convex quadratics, unlimited runs
 		runAll(quadCases(c, c.Pick(8, 80)))
 
